@@ -1,4 +1,4 @@
-SPECIFICATION Spec
+SPECIFICATION SimSpec
 CONSTANTS
   s1 = s1
   s2 = s2
@@ -7,29 +7,23 @@ CONSTANTS
   None = None
   Starts = {s1}
   IdOf <- IdOfDef
-  Objs = {o1}
+  Objs = {o1, o2}
   MaxAttempts = 7
-  MaxClock = 80
-  FailBudget = 1
+  MaxClock = 9
+  FailBudget = 0
   RespBudget = 0
   JunkBudget = 0
   CloseConn = TRUE
   HasFallback = TRUE
   AllowClose = FALSE
-  IdleCollects = 1
+  IdleCollects = 2
   RtoChanges = 2
-  DeadlineTicks = TRUE
+  DeadlineTicks = FALSE
   OneAtATime = FALSE
-  SafePool = FALSE
+  SafePool = TRUE
   Strict = FALSE
-VIEW View
-INVARIANT TypeOK
+  Depth = 60
 INVARIANT AtMostOnce
-INVARIANT WritesBounded
 INVARIANT RoutedByID
-INVARIANT ConnOwnership
-INVARIANT GoroutinesGone
-PROPERTY ClosedStartsRefused
-PROPERTY RtoSnapshot
-ACTION_CONSTRAINT PrintEdge
+INVARIANT Emit
 CHECK_DEADLOCK FALSE
